@@ -101,6 +101,15 @@ func main() {
 		props.DebugUniversalE6(&props.Run{P: p, E: core.NewEngine(p), R: core.NewReport("dbg", "quick", 0)})
 		return
 	}
+	if *dump == "guarded" {
+		p, err := core.Load(core.Config{Name: "default", Dir: *dir})
+		if err != nil {
+			fmt.Println(err)
+			os.Exit(2)
+		}
+		props.DebugGuarded(&props.Run{P: p, E: core.NewEngine(p), R: core.NewReport("dbg", "quick", 0)})
+		return
+	}
 	if *dump == "sinks" {
 		p, err := core.Load(core.Config{Name: "default", Dir: *dir})
 		if err != nil {
@@ -127,7 +136,12 @@ func main() {
 	rep.Explanation = ck.Explanation
 	rep.Assumptions = ck.Assumptions
 	rep.Trusted = props.CommonTrusted
-	configs := []core.Config{{Name: "default", Dir: *dir}}
+	ov, err := parseOverlay(*overlay)
+	if err != nil {
+		fmt.Printf("LOAD-ERROR %v\n", err)
+		os.Exit(3)
+	}
+	configs := []core.Config{{Name: "default", Dir: *dir, Overlay: ov}}
 	if *tier == "thorough" {
 		configs = append(configs,
 			core.Config{Name: "tags=testing", Dir: *dir, Tags: "testing"},
@@ -163,28 +177,39 @@ func runConfig(ck *props.Checker, cfg core.Config, rep *core.Report, tier string
 	rep.SetCount("subject_ssa_instructions["+cfg.Name+"]", core.CountInstrs(subj))
 	run := &props.Run{P: p, E: core.NewEngine(p), R: rep, Tier: tier, Universal: tier == "thorough"}
 	ck.Run(run)
+	props.GuardedErrors(run, ck.ID)
 	rep.SetCount("functions_with_dataflow["+cfg.Name+"]", len(run.E.Analysed))
 }
 
 // runAll loads the subject once and runs every registered checker (quick tier).
+// parseOverlay reads orig=replacement[,orig=replacement...] (tool mode).
+func parseOverlay(overlay string) (map[string][]byte, error) {
+	if overlay == "" {
+		return nil, nil
+	}
+	out := map[string][]byte{}
+	for _, kv := range strings.Split(overlay, ",") {
+		i := strings.Index(kv, "=")
+		if i < 0 {
+			continue
+		}
+		b, err := os.ReadFile(kv[i+1:])
+		if err != nil {
+			return nil, err
+		}
+		out[kv[:i]] = b
+	}
+	return out, nil
+}
+
 func runAll(dir, verif string, seed int, overlay string) int {
 	cfg := core.Config{Name: "default", Dir: dir}
-	if overlay != "" {
-		// orig=replacement[,orig=replacement...]
-		cfg.Overlay = map[string][]byte{}
-		for _, kv := range strings.Split(overlay, ",") {
-			i := strings.Index(kv, "=")
-			if i < 0 {
-				continue
-			}
-			b, err := os.ReadFile(kv[i+1:])
-			if err != nil {
-				fmt.Printf("LOAD-ERROR %v\n", err)
-				return 3
-			}
-			cfg.Overlay[kv[:i]] = b
-		}
+	ov, err := parseOverlay(overlay)
+	if err != nil {
+		fmt.Printf("LOAD-ERROR %v\n", err)
+		return 3
 	}
+	cfg.Overlay = ov
 	p, err := core.Load(cfg)
 	if err != nil {
 		fmt.Printf("LOAD-ERROR %v\n", err)
@@ -210,7 +235,9 @@ func runAll(dir, verif string, seed int, overlay string) int {
 					rep.Unk(ck.ID+".engine.panic", "checker must not panic", "sidecheck", "-", "a crashed analysis decides nothing", fmt.Sprintf("panic: %v", x))
 				}
 			}()
-			ck.Run(&props.Run{P: p, E: eng, R: rep, Tier: "quick"})
+			run := &props.Run{P: p, E: eng, R: rep, Tier: "quick"}
+			ck.Run(run)
+			props.GuardedErrors(run, ck.ID)
 		}()
 		if rep.Finish(verif, "other") != 0 {
 			rc = 1
